@@ -54,6 +54,19 @@ MSG = ('ext', 'msg')
 OUTB = ('ext', 'digest')
 
 
+
+def _has_top(v):
+    """True if the value contains an interpreter-made unknown ('top') anywhere."""
+    if isinstance(v, tuple):
+        if v and v[0] == 'top':
+            return True
+        return any(_has_top(x) for x in v)
+    if isinstance(v, (list, frozenset, set)):
+        return any(_has_top(x) for x in v)
+    if isinstance(v, dict):
+        return any(_has_top(x) for x in v.values())
+    return False
+
 class HashRules:
     def __init__(self, prog, rec):
         self.prog, self.rec = prog, rec
@@ -140,6 +153,7 @@ class HashRules:
             f = m['final']
             where = '%s:%s' % (f['file'], f['line'])
             bad = {}
+            unknown = {}
             for n in range(64):
                 blocks = []
 
@@ -203,17 +217,26 @@ class HashRules:
                         if g != w:
                             ok = False
                             why = 'byte %d of the padded message is %s, standard says %s' % (i, show(flat[i]), show(w))
+                            # a byte the interpreter lost (unknown, or a non-integer left by a library container or algorithm outside its model) is not a wrong byte:
+                            # the residue is undecided, not a violation (the corrected form of seed C02-r7-change1 must not alarm)
+                            if _has_top(flat[i]) or flat[i][0] in ('p', 'ptop', 'opaque', 'fn', 'null'):
+                                ok = None
                             break
-                if not ok:
+                if ok is None:
+                    unknown[n] = why
+                elif not ok:
                     bad[n] = why
                 if I.unmodelled:
                     rec.broke('unmodelled construct in finaliser of %s: %s' % (sub['q'], I.unmodelled[0]))
             okall = not bad
-            first = sorted(bad)[:1]
+            if okall and unknown:
+                okall = None
+            first = sorted(bad)[:1] or sorted(unknown)[:1]
+            bad = bad or unknown
             rec.ob('R07.d', 'R07.d@%s::padding-and-length-all-residues' % fkey(f), okall, where,
                    '%s: for every final-block size 0..63 and symbolic block count the padded message is msg || 0x80 || 0* || 64-bit %s-endian bit length (%s)' % (
                        kind, 'little' if kind == 'md5' else 'big',
-                       'yes, 64 residues' if okall else 'NO for %d residue(s), e.g. n=%d: %s' % (len(bad), first[0], bad[first[0]])))
+                       'yes, 64 residues' if okall else ('NO' if okall is False else 'UNDECIDED') + ' for %d residue(s), e.g. n=%d: %s' % (len(bad), first[0], bad[first[0]])))
         rec.count('R07.d finaliser evaluations', nres, 192)
 
     def norm_byte(self, v, symr):
